@@ -470,7 +470,8 @@ def run(ctx):
         v = wire.recv("de", t)
         if v != d or not isinstance(v, decimal.Decimal):
             ctx.fail("decimal reply decoded wrongly", {"text": t}, repr(v), str(d))
-    for lex in ["+1.50", "001.500", "-.5", "5.", "+0", "-0.0", "000", "12345678901234567890.0123456789"]:
+    for lex in ["+1.50", "001.500", "-.5", "5.", "+0", "-0.0", "000", "12345678901234567890.0123456789",
+                ".0", "-.000", "+.00", "0.", "10.", "100.00", ".50", "-0.", "+.0"]:
         v = wire.recv("de", lex)
         if not isinstance(v, decimal.Decimal) or v != decimal.Decimal(lex):
             ctx.fail("decimal lexical variant decoded wrongly", {"text": lex}, repr(v), lex)
@@ -713,7 +714,10 @@ def typed_by_xsi(ctx):
     cases = [("int", "42", 42), ("boolean", "true", True), ("boolean", "0", False), ("decimal", "1.50", decimal.Decimal("1.50")),
              ("double", "2.5", 2.5), ("date", "2001-02-03", datetime.date(2001, 2, 3)), ("string", "7", "7"),
              ("dateTime", "2001-02-03T04:05:06", datetime.datetime(2001, 2, 3, 4, 5, 6)), ("long", "-7", -7),
-             ("dateTime", "2001-02-30T04:05:06", ValueError), ("date", "20010203", ValueError)]
+             ("dateTime", "2001-02-30T04:05:06", ValueError), ("date", "20010203", ValueError),
+             # a date is a date: text shaped like a dateTime is no value of xsd:date
+             ("date", "2001-05-17T00:00:00", ValueError), ("date", "2001-02-28T23:59:59.9999995", ValueError),
+             ("date", "2001-05-17T00:00:00Z", ValueError), ("date", "2001-05-17Z", datetime.date(2001, 5, 17))]
     for t, lex, want in cases:
         meta = {"stream": "typed-by-xsi", "type": t, "text": lex}
         ctx.case(common.canon(meta), True)
